@@ -19,7 +19,7 @@ from common import cz, cnat, cbool, clist
 
 LEVEL = "proof"
 THEOREMS = "Props/C14.v"
-EXTRA_TARGETS = ("Gen/HbondTables.vo", "Hbond/Run.vo")
+EXTRA_TARGETS = ("Gen/HbondTables.vo", "Gen/HbondFormulas.vo", "Hbond/Run.vo")
 EXTS = ["_geometry"]
 RULE = ("synthetic systems: peptides of 2..15 residues from templates (GLY ALA SER THR LYS ASP ASN PRO, N/C termini, "
         "waters, a ligand with N-H/O-H/O, residues with deleted backbone atoms), heavy atoms placed at random grid "
@@ -59,7 +59,118 @@ def qz(fr):
     return "(%d, %d)" % (fr.numerator, fr.denominator) if fr.denominator != 1 or True else ""
 
 
+def translate_formulas(ctx):
+    """T2-style translation of ks_donor_acceptor() (geometry.cpp) into coq/Gen/HbondFormulas.v.  Fail closed: every
+    statement of the function body must match the small grammar below."""
+    cpp = open(os.path.join(common.REPO, "mdtraj/geometry/src/geometry.cpp")).read()
+    m = re.search(r"static\s+float\s+ks_donor_acceptor\s*\(\s*const float\*\s*xyz\s*,\s*const float\*\s*hcoords\s*,\s*"
+                  r"const int\*\s*nco_indices\s*,\s*int\s+donor\s*,\s*int\s+acceptor\s*\)\s*\{(.*?)\n\}", cpp, re.S)
+    if not m:
+        raise ValueError("ks_donor_acceptor: signature not recognised")
+    body = re.sub(r"//[^\n]*", "", m.group(1))
+    body = re.sub(r"/\*.*?\*/", "", body, flags=re.S)
+    stmts = [re.sub(r"\s+", "", x) for x in body.split(";")]
+    stmts = [x for x in stmts if x]
+    num = r"(-?[0-9]+(?:\.[0-9]*)?f?)"
+    sites, diffs = {}, {}
+    coupling = packed = recip = energy = clamp = None
+    for st in stmts:
+        mm = re.fullmatch(r"fvec4(\w+)\(%s,%s,%s,%s\)" % (num, num, num, num), st)
+        if mm:
+            if coupling is not None:
+                raise ValueError("two constant vectors in ks_donor_acceptor")
+            coupling = (mm.group(1), [dec(mm.group(i)) for i in range(2, 6)])
+            continue
+        mm = re.fullmatch(r"fvec4(\w+)\(xyz\[3\*nco_indices\[3\*(donor|acceptor)(?:\+([0-2]))?\]\],"
+                          r"xyz\[3\*nco_indices\[3\*(donor|acceptor)(?:\+([0-2]))?\]\+1\],"
+                          r"xyz\[3\*nco_indices\[3\*(donor|acceptor)(?:\+([0-2]))?\]\+2\],0\)", st)
+        if mm:
+            roles = {(mm.group(2), mm.group(3) or "0"), (mm.group(4), mm.group(5) or "0"), (mm.group(6), mm.group(7) or "0")}
+            if len(roles) != 1:
+                raise ValueError("components of %s come from different atoms" % mm.group(1))
+            sites[mm.group(1)] = roles.pop()
+            continue
+        mm = re.fullmatch(r"fvec4(\w+)\(hcoords\[4\*(donor|acceptor)\],hcoords\[4\*(donor|acceptor)\+1\],"
+                          r"hcoords\[4\*(donor|acceptor)\+2\],0\)", st)
+        if mm:
+            if len({mm.group(2), mm.group(3), mm.group(4)}) != 1:
+                raise ValueError("components of %s come from different hydrogens" % mm.group(1))
+            sites[mm.group(1)] = (mm.group(2), "h")
+            continue
+        mm = re.fullmatch(r"fvec4(\w+)=(\w+)-(\w+)", st)
+        if mm:
+            diffs[mm.group(1)] = (mm.group(2), mm.group(3))
+            continue
+        mm = re.fullmatch(r"fvec4(\w+)\(dot3\((\w+),(\w+)\),dot3\((\w+),(\w+)\),dot3\((\w+),(\w+)\),dot3\((\w+),(\w+)\)\)", st)
+        if mm:
+            g = mm.groups()
+            if any(g[1 + 2 * k] != g[2 + 2 * k] for k in range(4)):
+                raise ValueError("dot3 of two different vectors")
+            packed = (g[0], [g[1], g[3], g[5], g[7]])
+            continue
+        mm = re.fullmatch(r"fvec4(\w+)=1\.0f?/sqrt\((\w+)\)", st)
+        if mm:
+            recip = (mm.group(1), mm.group(2))
+            continue
+        mm = re.fullmatch(r"float(\w+)=dot4\((\w+),(\w+)\)", st)
+        if mm:
+            energy = mm.groups()
+            continue
+        mm = re.fullmatch(r"return\((\w+)<%s\?%s:(\w+)\)" % (num, num), st)
+        if mm:
+            clamp = mm.groups()
+            continue
+        raise ValueError("ks_donor_acceptor: statement outside the grammar: %s" % st)
+    if None in (coupling, packed, recip, energy, clamp):
+        raise ValueError("ks_donor_acceptor: a part of the formula is missing")
+    if recip[1] != packed[0] or set(energy[1:]) != {coupling[0], recip[0]} or clamp[0] != energy[0] or clamp[3] != energy[0]:
+        raise ValueError("ks_donor_acceptor: data flow not recognised")
+    SITE = {("donor", "0"): "KS_N", ("donor", "h"): "KS_H", ("acceptor", "1"): "KS_C", ("acceptor", "2"): "KS_O"}
+    if sorted(sites.values()) != sorted(SITE):
+        raise ValueError("ks_donor_acceptor: unexpected atom sources %s" % sorted(sites.values()))
+    pairs = []
+    for v in packed[1]:
+        if v not in diffs or diffs[v][0] not in sites or diffs[v][1] not in sites:
+            raise ValueError("ks_donor_acceptor: %s is not a difference of two loaded positions" % v)
+        pairs.append((SITE[sites[diffs[v][0]]], SITE[sites[diffs[v][1]]]))
+    cs = coupling[1]
+    qq = lambda c: "(%d # %d)" % (c.numerator, c.denominator) if c >= 0 else "(%d # %d)" % (c.numerator, c.denominator)
+    zz2 = lambda c: "(%d, %d)" % (c.numerator, c.denominator)
+    src = {v: k for k, v in SITE.items()}
+    slot = lambda s: "(%s, %s%%nat)" % ("true" if src[s][0] == "donor" else "false", "3" if src[s][1] == "h" else src[s][1])
+    text = """(* GENERATED by harness/props/C14.py:translate from ks_donor_acceptor() in
+   mdtraj/geometry/src/geometry.cpp -- do not edit.  Fail closed: any statement of that function outside
+   the accepted grammar aborts the translation and breaks the tie. *)
+From Coq Require Import ZArith QArith List.
+Import ListNotations.
+
+(* the four positions the function loads *)
+Inductive ks_site := KS_N | KS_H | KS_C | KS_O.
+(* (true = donor residue / false = acceptor residue, slot of nco_indices; 3 = the hcoords array) *)
+Definition ks_site_source (s : ks_site) : bool * nat :=
+  match s with KS_N => %s | KS_H => %s | KS_C => %s | KS_O => %s end.
+(* fvec4 r_xy = r_x - r_y;  then the squared norms in packing order *)
+Definition ks_packed : list (ks_site * ks_site) := [%s].
+(* the constant vector *)
+Definition ks_coupling_packed : list (Z * Z) := [%s]%%Z.
+(* energy = dot4(coupling, 1/sqrt(d2)): as an expression in the inverse distances *)
+Definition ks_energy_expr (inv : ks_site -> ks_site -> Q) : Q :=
+  %s.
+(* return (energy < T ? V : energy) *)
+Definition ks_clamp_test : Z * Z := %s%%Z.
+Definition ks_clamp_value : Z * Z := %s%%Z.
+""" % (slot("KS_N"), slot("KS_H"), slot("KS_C"), slot("KS_O"),
+       "; ".join("(%s, %s)" % pq for pq in pairs), "; ".join(zz2(c) for c in cs),
+       " + ".join("%s * inv %s %s" % (qq(c), a, b) for c, (a, b) in zip(cs, pairs)),
+       zz2(dec(clamp[1])), zz2(dec(clamp[2])))
+    ctx.write_gen("Gen/HbondFormulas.v", text)
+
+
 def translate(ctx):
+    try:
+        translate_formulas(ctx)
+    except Exception as e:      # fail closed for the formula
+        ctx.break_("translator:ks_donor_acceptor", str(e))
     import ast
     py = open(os.path.join(common.REPO, "mdtraj/geometry/hbond.py")).read()
     cpp = open(os.path.join(common.REPO, "mdtraj/geometry/src/geometry.cpp")).read()
